@@ -20,7 +20,7 @@ RULE = ("random orthogonal cells (1-6 atoms), grids 12-32, slice thickness scala
 CLAUSES = ["plane:values", "last-equals-full:values", "thickness-axis", "entrance-plane:values", "planes-from-spec",
            "last-plane-is-exit-surface"]
 QUICK = dict(n=28, time=50)
-THOROUGH = dict(n=640, time=480, shards=16)
+THOROUGH = dict(n=5120, time=480, shards=16)
 
 
 def gen(rng, tier):
